@@ -570,6 +570,9 @@ var policies = []string{"back-to-back", "uniform", "uniform", "window", "dense",
 
 func genObj(r *plan.Rand, uniq string, data []DatumSpec, allowFilter bool) (ObjSpec, int) {
 	di := r.Intn(len(data))
+	for try := 0; try < 4 && (data[di].Gen == "nil" || data[di].Gen == "scalar"); try++ {
+		di = r.Intn(len(data))
+	}
 	d := data[di]
 	opts := OptSpec{}
 	if r.Chance(0.15) {
@@ -590,7 +593,8 @@ func genObj(r *plan.Rand, uniq string, data []DatumSpec, allowFilter bool) (ObjS
 	root := Build(d)
 	if strings.HasPrefix(d.Gen, "coll:") {
 		if allowFilter {
-			var elem interface{} = map[string]interface{}{}
+			// an empty or non-container collection: aim the expression at the usual element type
+			var elem interface{} = genInner(plan.New(7), 1)
 			rv := reflect.ValueOf(root)
 			switch rv.Kind() {
 			case reflect.Map:
@@ -651,6 +655,10 @@ func GenSchedPlan(seed uint64, idx int, prop string) *plan.SchedPlan {
 		}
 		p.Data = append(p.Data, DatumSpec{Gen: gens[r.Intn(len(gens))], Seed: r.Uint64() % 1000000})
 	}
+	if r.Chance(0.1) {
+		// a datum no expression was written for: nil or a bare scalar
+		p.Data = append(p.Data, DatumSpec{Gen: []string{"nil", "scalar"}[r.Intn(2)], Seed: r.Uint64() % 1000000})
+	}
 	nObj := r.Range(1, 3)
 	if prop == "C12" && r.Chance(0.12) {
 		// no shared object at all: the callers only create (and then use) their
@@ -676,6 +684,7 @@ func GenSchedPlan(seed uint64, idx int, prop string) *plan.SchedPlan {
 		nLocal := 0
 		for len(ops) < n {
 			x := r.Float()
+			nData := len(p.Data)
 			oi, di := -1, r.Intn(nData)
 			if nObj > 0 {
 				oi = r.Intn(nObj)
